@@ -8,6 +8,7 @@
 
 #define ALN_PROFILEPROFILE_IMPORT
 #include "aln_profileprofile.h"
+#include "kalign_verif.h"
 
 #define MAX(a, b) (a > b ? a : b)
 #define MAX3(a,b,c) MAX(MAX(a,b),c)
@@ -15,6 +16,7 @@
 
 int aln_profileprofile_foward(struct aln_mem* m)
 {
+        KALIGN_VERIF_EVENT(KV_FWD_BEGIN, m, 0, 0, 0);
         unsigned int freq[24];
         const float* restrict prof1 = m->prof1;
         const float* restrict prof2 = m->prof2;
@@ -145,11 +147,13 @@ int aln_profileprofile_foward(struct aln_mem* m)
 
         }
         //prof1 -=  (m->enda) << 6;
+        KALIGN_VERIF_EVENT(KV_FWD_END, m, 0, 0, 0);
         return OK;
 }
 
 int aln_profileprofile_backward(struct aln_mem* m)
 {
+        KALIGN_VERIF_EVENT(KV_BWD_BEGIN, m, 0, 0, 0);
         unsigned int freq[24];
         struct states* restrict s = m->b;
         const float* restrict prof1 = m->prof1;
@@ -281,12 +285,14 @@ int aln_profileprofile_backward(struct aln_mem* m)
 
                 //pa = ca;
         }
+        KALIGN_VERIF_EVENT(KV_BWD_END, m, 0, 0, 0);
         return OK;
 }
 
 
 int aln_profileprofile_meetup(struct aln_mem* m,int old_cor[], int* meet,int* t,float* score)
 {
+        KALIGN_VERIF_EVENT(KV_MEET_BEGIN, m, 0, 0, 0);
         struct states* f = m->f;
         struct states* b = m->b;
         int i;
@@ -406,5 +412,6 @@ int aln_profileprofile_meetup(struct aln_mem* m,int old_cor[], int* meet,int* t,
         *t = transition;
         *score = max;
 
+        KALIGN_VERIF_EVENT(KV_MEET_END, m, 0, 0, 0);
         return OK;
 }
